@@ -203,6 +203,57 @@ def rule_u3(F):
     return r
 
 
+def type_child_variants(F):
+    """Variants of typechecker::types::Type that contain further types."""
+    a = F.adt("typechecker::types::Type")
+    out = {}
+    for v in (a["variants"] if a else []):
+        tys = " ".join(f["ty"] for f in v["fields"])
+        if "typechecker::types::Type" in tys or "TypeName" in tys:
+            out[v["name"]] = tys
+    return out
+
+
+def rule_u3b(F):
+    r = RuleResult("C06.U3b", "the occurs check descends into every Type variant that contains types", floor=4)
+    ps = [p for p in F.paths() if p.endswith("::unify_inner")]
+    if not ps:
+        r.missing("unify_inner")
+        return r
+    ub = F.body(ps[0])
+    # the function used as occurs check in the Var arms
+    cands = {}
+    ms = [m for m in hir.nodes(ub.hir["value"], "match") if len(m["arms"]) > 8]
+    for arm in (ms[0]["arms"] if ms else []):
+        if hir.pat_desc(arm["pat"]) in ("(Type::Var(_),_)", "(_,Type::Var(_))"):
+            for c in hir.nodes(arm["body"], "mcall"):
+                if c["m"] not in ("set", "clone") and c.get("def"):
+                    cands[c["def"]] = cands.get(c["def"], 0) + 1
+    occ = [d for d, n in cands.items() if n >= 2 and F.has(d)]
+    if not occ:
+        r.missing("occurs-check function called from both Var arms of unify_inner")
+        return r
+    ob = F.body(occ[0])
+    need = type_child_variants(F)
+    mm = hir.find_match_on(ob.hir["value"], "Type::", min_arms=3)
+    if not mm:
+        r.missing("match over Type in " + occ[0])
+        return r
+    self_name = hir.last(occ[0])
+    covered = {}
+    for arm in mm[0]["arms"]:
+        for alt in hir.pat_alternatives(arm["pat"]):
+            v = alt.split("::")[1].split("(")[0].split("{")[0] if "::" in alt else alt
+            rec = any(c["m"] == self_name for c in hir.nodes(arm["body"], "mcall")) or any((hir.call_def(c) or "").endswith("::" + self_name) for c in hir.nodes(arm["body"], "call"))
+            covered[v] = rec
+    for v, tys in need.items():
+        r.inst("occurs %s" % v, {"variant": v, "contains": tys[:80], "descends": covered.get(v, covered.get("_"))})
+        if not covered.get(v, covered.get("_", False)):
+            r.bad(occ[0], "variant " + v, relfile(ob.file), ob.line,
+                  "the occurs check does not look inside Type::%s (%s): a type variable can be bound to a type that contains it through this constructor, and the next traversal never terminates" % (v, tys[:60]))
+    return r
+
+
 def rule_u4(F):
     r = RuleResult("C06.U4", "recursive-type detection traverses type arguments of named types", floor=1)
     b = F.body("typechecker::type_cycle::visit")
@@ -252,7 +303,7 @@ def rule_u5(F):
 
 def rules(ctx):
     F = ctx["F"]
-    return [rule_u1(F), rule_u2(F), rule_u3(F), rule_u4(F), rule_u5(F)]
+    return [rule_u1(F), rule_u2(F), rule_u3(F), rule_u3b(F), rule_u4(F), rule_u5(F)]
 
 
 def canary(C):
